@@ -173,11 +173,19 @@ func checkC16Render(c C16RenderCase) error {
 			return fmt.Errorf("compiling %q failed: %v; templates:%s", name, r, showSources(srcs))
 		}
 	}
-	for variant := 0; variant < 3; variant++ {
+	for variant := 0; variant < 4; variant++ {
 		eB := twig.New()
 		NewSpies().Install(eB)
 		eB.EnableSandbox(allowAll{})
 		what := "second engine"
+		if variant == 3 {
+			// the target engine already holds other (newer) templates under the same names:
+			// registering the compiled form must replace them
+			what = "second engine that already had templates under these names"
+			for name := range blobs {
+				eB.RegisterString(name, "STALE("+name+")")
+			}
+		}
 		for name, b := range blobs {
 			data := b
 			if variant == 2 {
@@ -221,6 +229,19 @@ func TestC16Render(t *testing.T) {
 	defer r.Flush()
 	rapid.Check(t, func(rt *rapid.T) {
 		sc, kind := genStructured(rt)
+		if rapid.IntRange(0, 5).Draw(rt, "relative") == 0 {
+			// names with directories and template names relative to them
+			kind = "relative-names"
+			v := Ctx{}
+			v.Set("v", Int(int64(rapid.IntRange(1, 9).Draw(rt, "v"))))
+			sc = SetCase{Ctx: v, Main: "a/page", Set: TSet{
+				{Name: "shared/base", Body: []*S{Text("base["), {K: "block", Name: "body", Body: []*S{Text("dflt")}}, Text("]")}},
+				{Name: "a/page", Extends: Str("../shared/base"), Body: []*S{{K: "block", Name: "body", Body: []*S{Text("A:"), {K: "include", E: Str("./part")}, {K: "import", E: Str("./macros"), Name: "lib"}, Print(&E{K: "mcall", S: "tag", M: "import", A: []*E{Var("v")}})}}}},
+				{Name: "a/part", Body: []*S{Text("partA("), Print(Var("v")), Text(")"), {K: "include", E: Str("../shared/leaf")}}},
+				{Name: "a/macros", Body: []*S{{K: "macro", Name: "tag", Params: []Param{{Name: "x"}}, Body: []*S{Text("<A"), Print(Var("x")), Text(">")}}}},
+				{Name: "shared/leaf", Body: []*S{Text("leaf")}},
+			}}
+		}
 		c := C16RenderCase{Ctx: sc.Ctx, Set: sc.Set, Main: sc.Main}
 		srcs := c.Set.Sources(SPrint{})
 		kinds := 0
